@@ -5,6 +5,7 @@ capabilities using the full 657-color table from r2rtf.
 """
 
 from collections.abc import Mapping, Sequence
+from contextvars import ContextVar
 from typing import Any
 
 from rtflite.dictionary.color_table import (
@@ -21,6 +22,11 @@ class ColorValidationError(ValueError):
     pass
 
 
+_document_colors: ContextVar[Sequence[str] | None] = ContextVar(
+    "rtflite_document_colors", default=None
+)
+
+
 class ColorService:
     """Service for color validation, lookup, and RTF generation operations."""
 
@@ -30,9 +36,15 @@ class ColorService:
         self._name_to_type = name_to_type
         self._name_to_rgb = name_to_rgb
         self._name_to_rtf = name_to_rtf
-        self._current_document_colors = (
-            None  # Context for current document being encoded
-        )
+
+    @property
+    def _current_document_colors(self) -> Sequence[str] | None:
+        """Colors of the document being encoded in the current thread/task."""
+        return _document_colors.get()
+
+    @_current_document_colors.setter
+    def _current_document_colors(self, used_colors: Sequence[str] | None) -> None:
+        _document_colors.set(used_colors)
 
     def validate_color(self, color: str) -> bool:
         """Validate if a color name exists in the color table.
